@@ -150,3 +150,48 @@ func H_C13_hard_max() {
 	}
 	vReach("end")
 }
+
+// H_C13_hard_max_multibyte: the fall-back that enforces a hard maximum (last break at or before the limit) never cuts
+// inside a multi-byte character, in particular not after a continuation byte that looks like a space when read alone.
+//
+//symgo:harness prop=C13 kernel=K2-hard-max-multibyte loop=2000 steps=50000000
+//symgo:redirect github.com/tsawler/tabula/rag.countWords vHavocCount
+//symgo:redirect github.com/tsawler/tabula/rag.countSentences vHavocCount
+//symgo:redirect github.com/tsawler/tabula/rag.countParagraphs vHavocCount
+//symgo:desc 260-byte text of 4-letter ASCII words (the five word gaps before the insertion point symbolic over {a, space}) into which the characters U+5B66 U+6821 U+5143 (continuation bytes 0xA0 and 0x85, which read alone are NBSP/NEL) are inserted at an offset enumerated over 180..200, followed by "abc. "; hard Max of 200 characters or 50 tokens: every piece is valid UTF-8 and the pieces conserve the non-whitespace bytes in order
+func H_C13_hard_max_multibyte() {
+	off := vAnyIntIn(180, 200)
+	var b []byte
+	for i := 0; len(b) < 260; i++ {
+		if len(b) == off {
+			b = append(b, "学校元abc. "...)
+			continue
+		}
+		switch {
+		case i%50 == 49:
+			b = append(b, ' ')
+		case i%5 == 4 && len(b) < off && len(b) >= off-25:
+			b = append(b, vAnyByteOf("a "))
+		case i%5 == 4:
+			b = append(b, ' ')
+		default:
+			b = append(b, 'a')
+		}
+	}
+	text := string(b)
+	cfg := DefaultSizeConfig()
+	if vAnyIntIn(0, 1) == 1 {
+		cfg.Max = SizeLimit{Value: 50, Unit: SizeUnitTokens, Type: LimitTypeHard}
+	} else {
+		cfg.Max = SizeLimit{Value: 200, Unit: SizeUnitCharacters, Type: LimitTypeHard}
+	}
+	pieces := NewSizeCalculatorWithConfig(cfg).SplitToSize(text, nil)
+	var joined []byte
+	for _, p := range pieces {
+		vAssert("piece-is-valid-utf8", utf8.ValidString(p))
+		joined = append(joined, vNonWS(p)...)
+	}
+	want := vNonWS(text)
+	vAssert("non-whitespace-conserved", string(joined) == string(want))
+	vReach("end")
+}
